@@ -174,12 +174,16 @@ func runCheck(prop, tier string, seed int) int {
 			if fc.Trusted {
 				continue
 			}
-			if !contractTags(fc)[prop] {
-				continue
+			if fc.Opts["assumed"] != "" {
+				continue // contract assumed here (checked by other means, see evidence)
 			}
+			// every function under contract is generated: an obligation serves the property if it carries its tag,
+			// wherever it arises (e.g. a tagged precondition of a callee at a call site in an otherwise unrelated function)
 			fi := prog.Funcs[k]
 			if fi == nil {
-				rep.undecided = append(rep.undecided, fmt.Sprintf("contract for %s (%s:%d) has no function in /repo (GOOS=%s)", k, filepath.Base(fc.File), fc.Line, g))
+				if contractTags(fc)[prop] {
+					rep.undecided = append(rep.undecided, fmt.Sprintf("contract for %s (%s:%d) has no function in /repo (GOOS=%s)", k, filepath.Base(fc.File), fc.Line, g))
+				}
 				continue
 			}
 			funcs = append(funcs, funcUnder{prog, fi, fc, g})
@@ -207,15 +211,17 @@ func runCheck(prop, tier string, seed int) int {
 	var vacuity []*Obligation
 	abstractions := map[string]bool{}
 	var funcNames []string
+	serving := map[string]bool{}
 	for _, fr := range results {
 		name := fr.fu.fi.Key
 		if len(gooses) > 1 {
 			name += " (" + fr.fu.goos + ")"
 		}
-		funcNames = append(funcNames, name)
 		for _, r := range fr.res {
 			if r.Err != "" {
-				rep.undecided = append(rep.undecided, fmt.Sprintf("%s%s: %s", r.Func, modeSuffix(r.Mode), firstLines(r.Err, 2)))
+				if contractTags(fr.fu.fc)[prop] {
+					rep.undecided = append(rep.undecided, fmt.Sprintf("%s%s: %s", r.Func, modeSuffix(r.Mode), firstLines(r.Err, 2)))
+				}
 				continue
 			}
 			n := 0
@@ -231,8 +237,11 @@ func runCheck(prop, tier string, seed int) int {
 					n++
 				}
 			}
-			if n == 0 {
+			if n == 0 && contractTags(fr.fu.fc)[prop] {
 				rep.undecided = append(rep.undecided, fmt.Sprintf("%s%s generated no obligation for %s", r.Func, modeSuffix(r.Mode), prop))
+			}
+			if n > 0 {
+				serving[name] = true
 			}
 			for _, a := range r.Abstractions {
 				abstractions[a] = true
@@ -262,7 +271,11 @@ func runCheck(prop, tier string, seed int) int {
 		}
 		funcNames = append(funcNames, fmt.Sprintf("%d lemma(s) over the specification functions (%s)", n, g))
 	}
-	if len(funcs) == 0 {
+	for _, n := range sortedKeys(serving) {
+		funcNames = append(funcNames, n)
+	}
+	sort.Strings(funcNames)
+	if len(serving) == 0 {
 		rep.undecided = append(rep.undecided, "no function under contract serves "+prop)
 	}
 	dischargeAll(all, timeout, seed, true)
@@ -383,7 +396,7 @@ func runCheck(prop, tier string, seed int) int {
 		fmt.Println(v)
 	}
 	fmt.Printf("%s %s: %d functions under contract, %d obligations, %d discharged, %d known findings, %d violations, %d undecided, %.1fs\n",
-		prop, tier, len(funcs), len(all), discharged, len(rep.known), len(rep.violations), len(rep.undecided), time.Since(t0).Seconds())
+		prop, tier, len(serving), len(all), discharged, len(rep.known), len(rep.violations), len(rep.undecided), time.Since(t0).Seconds())
 	if len(rep.violations) > 0 {
 		return 1
 	}
